@@ -426,6 +426,44 @@ def r3_std(ctx, rid="C19.R3", title=None):
                             ctx.check(zeroing or initial, rid, f, st, "construction-time write (initial scale / documented masked zeroing)", "unexpected write of the proposal scale in a constructor")
                         else:
                             ctx.violation(rid, f, st, "the proposal scale is written outside _update_std and construction")
+        # ... also through a local view of it (`x = self.std[idx]; x /= ...` divides the scale itself whenever the indexing returns a view) or an in-place method
+        if f.key == upd.key or (f.name == "__init__" and f.mod == G):
+            continue
+        VIEW_METHODS = {"view", "reshape", "squeeze", "unsqueeze", "expand", "expand_as", "t", "detach", "flatten", "narrow", "select", "transpose", "permute", "view_as", "numpy"}
+
+        def is_std_view(e, aliases):
+            while True:
+                if isinstance(e, ast.Subscript):
+                    e = e.value
+                elif isinstance(e, ast.Call) and isinstance(e.func, ast.Attribute) and e.func.attr in VIEW_METHODS:
+                    e = e.func.value
+                elif isinstance(e, ast.Attribute) and e.attr in ("T", "data", "mT"):
+                    e = e.value
+                else:
+                    break
+            return (isinstance(e, ast.Attribute) and e.attr == "std" and U(e.value) in ("self", "sampler")) or (isinstance(e, ast.Name) and e.id in aliases)
+        aliases = set()
+        for _ in range(3):
+            for st in statements(f.node):
+                if isinstance(st, ast.Assign) and len(st.targets) == 1 and isinstance(st.targets[0], ast.Name) and is_std_view(st.value, aliases):
+                    aliases.add(st.targets[0].id)
+        for st in statements(f.node):
+            hit = None
+            if isinstance(st, ast.AugAssign):
+                tb = st.target
+                if (isinstance(tb, ast.Name) and tb.id in aliases) or (isinstance(tb, ast.Subscript) and isinstance(tb.value, ast.Name) and tb.value.id in aliases):
+                    hit = st
+            if isinstance(st, ast.Assign):
+                for t in st.targets:
+                    if isinstance(t, ast.Subscript) and isinstance(t.value, ast.Name) and t.value.id in aliases:
+                        hit = st
+            for c in header_walk(st):
+                if isinstance(c, ast.Call) and isinstance(c.func, ast.Attribute) and c.func.attr.endswith("_") and not c.func.attr.endswith("__") and is_std_view(c.func.value, aliases) \
+                        and not (isinstance(c.func.value, ast.Name) and c.func.value.id not in aliases):
+                    hit = st
+            if hit is not None:
+                ctx.violation(rid, f, hit, f"`{U(hit)[:80]}` modifies in place a view of the proposal scale (`{sorted(aliases)[0] if aliases else 'self.std'}` is `self.std[...]`, which shares its memory whenever "
+                              "the index is empty or a slice): the scale changes outside `_update_std`, by a factor unrelated to the configured one", construct=f"in-place write through a view of std in {f.qual}")
 
 
 def r5_temperature_updated_every_iteration(ctx):
